@@ -74,3 +74,5 @@ Print Assumptions C19_waits_equal_recovered.
 Print Assumptions C19_waits_bounds.
 Print Assumptions C19_bucket_bound.
 Print Assumptions C19_spec_sound.
+Print Assumptions C19_bucket_inhabited.
+Print Assumptions C19_run_inhabited.
